@@ -10,7 +10,7 @@ defect of Beam._modified belongs to C01).  Monitors, all on Beam.density / Singl
   flux_atten  : cross-section integral = P/(E m e)/v * exp(-int_0^z S/v), S from the documented composite formula
                 evaluated by this module (own transform algebra, own constants, Gauss-Legendre panels, two orders must
                 agree); tolerance = computed bound of the documented discretisation (trapezoid on a grid of spacing
-                <= step + linear interpolation) * 2 + 1e-7.
+                <= step + linear interpolation) * 10 + 1e-7.
   envelope    : normalised second moments of the cross-section = sigma_x(z)^2, sigma_y(z)^2 (documented envelope,
                 truncated-Gaussian factor when clamping is on).
   monotone    : on-axis density never increases along >= 65 sorted z.
@@ -49,7 +49,8 @@ ASSUMPTIONS = ["beam and plasma share one scene-graph root and are related by a 
                "profiles are smooth on the scale of the attenuator step (tolerance is computed from their derivatives)",
                "every scene is built in its final placement before the first density evaluation (history effects: C01)"]
 QUICK = dict(cases=220, workers=2, timecap=40)
-THOROUGH = dict(cases=26000, workers=16, timecap=600)
+THOROUGH = dict(cases=22000, workers=16, timecap=600)
+TOL_FACTOR = 10.0   # safety factor on the rigorous discretisation bound (the bound itself is attained by the documented scheme)
 REQUIRED = {"flux_source": 70, "flux_nostop": 150, "flux_atten": 500, "envelope": 1500, "monotone": 5000, "zero_z": 2500,
             "zero_clamp": 5000, "dir_unit": 2000, "dir_stream": 3000, "rate_evaluations": 10000}
 
@@ -109,6 +110,8 @@ def rigid_inverse(M):
 
 
 def beam_to_plasma(case):
+    if case.get("beam_parent") == "plasma":          # beam nodes hang below the plasma node itself
+        return root_matrix(case["beam_nodes"])
     return rigid_inverse(root_matrix(case["plasma_nodes"])) @ root_matrix(case["beam_nodes"])
 
 
@@ -364,7 +367,7 @@ def gen_case(rng, tier, overrides=None):
     step = att["step"]
     stepc = "step>length" if step > length else "step<=length"
     # ---- placement ----
-    place = ov.get("place") or ["identity", "translated", "rotated", "moved", "nested", "nested"][int(rng.integers(6))]
+    place = ov.get("place") or ["identity", "translated", "rotated", "moved", "nested", "nested", "child-of-plasma"][int(rng.integers(7))]
     span = 3.0
     if place == "identity":
         pn, bn = [[]], [[]]
@@ -374,10 +377,14 @@ def gen_case(rng, tier, overrides=None):
         pn, bn = [[]], [_rand_ops(rng, "r", span)]
     elif place == "moved":
         pn, bn = [_rand_ops(rng, "tr", span)], [_rand_ops(rng, "tr", span)]
+    elif place == "child-of-plasma":
+        pn = [_rand_ops(rng, "tr", span) for _ in range(int(rng.integers(1, 3)))]
+        bn = [_rand_ops(rng, "tr", span) for _ in range(int(rng.integers(1, 3)))]
     else:
         pn = [_rand_ops(rng, "tr", span) for _ in range(int(rng.integers(1, 4)))]
         bn = [_rand_ops(rng, "tr", span) for _ in range(int(rng.integers(2, 4)))]
-    case = dict(beam=beam, attenuator=att, plasma_nodes=pn, beam_nodes=bn, place=place, div_class=divc, step_class=stepc)
+    case = dict(beam=beam, attenuator=att, plasma_nodes=pn, beam_nodes=bn, place=place,
+                beam_parent="plasma" if place == "child-of-plasma" else "world", div_class=divc, step_class=stepc)
     M = beam_to_plasma(case)
     p0 = M[:3, 3].copy()
     d = M[:3, 2] / np.linalg.norm(M[:3, 2])
@@ -387,7 +394,7 @@ def gen_case(rng, tier, overrides=None):
     sub = ""
     nion = int(rng.integers(1, 5))
     if stop == "none":
-        sub = ["null-rates", "null-rates", "no-species", "neutrals-only"][int(rng.integers(4))]
+        sub = ["null-rates", "null-rates", "no-species", "neutrals-only", "zero-density"][int(rng.integers(5))]
         if sub == "no-species":
             nion = 0
         elif sub == "neutrals-only":
@@ -414,6 +421,8 @@ def gen_case(rng, tier, overrides=None):
         kn = kinds[int(rng.integers(len(kinds)))]
         kT = kinds[int(rng.integers(len(kinds)))]
         npro = _scalar_profile(rng, kn, n0, p0, d, length, h, positive_floor=False)
+        if sub == "zero-density":
+            npro = {"k": "u", "v": 0.0}
         Tpro = _scalar_profile(rng, kT, T0, p0, d, length, h, positive_floor=True)
         if flows and rng.random() < 0.8:
             u0 = _unit(rng) * rng.uniform(0.0, 0.4) * v
@@ -444,7 +453,7 @@ def gen_case(rng, tier, overrides=None):
     order = rng.permutation(len(species))
     species = [species[int(i)] for i in order]
     null_keys = []
-    if stop == "none":
+    if stop == "none" and sub != "zero-density":
         null_keys = [[s["el"], s["Z"]] for s in species]
     elif len([s for s in species if s["Z"] > 0]) > 1 and rng.random() < 0.2:
         ions = [s for s in species if s["Z"] > 0]
@@ -539,7 +548,7 @@ def build_scene(case, log, counter):
     provider = mock_c04.build_provider(case["rate_scale"], case["rate_variant"], case["null_keys"], log)
     plasma.atomic_data = provider
 
-    parent = world
+    parent = plasma if case.get("beam_parent") == "plasma" else world
     for ops in case["beam_nodes"][:-1]:
         parent = Node(parent=parent, transform=AffineMatrix3D(ops_matrix(ops)))
     b = case["beam"]
@@ -618,7 +627,7 @@ def run_case(case, ctx):
             ctx.skip("oracle stopping integral not converged")
             return
         bound = discretisation_bound(case, zs, M)
-        tol_rel = 2.0 * bound + 1e-7
+        tol_rel = TOL_FACTOR * bound + 1e-7
     lam = lam0 * np.exp(-tau)
 
     # ---------------- cross-section moments of the real density ----------------
